@@ -5,6 +5,7 @@ import (
 	"go/ast"
 	"go/token"
 	"go/types"
+	"golang.org/x/tools/go/ssa"
 	"strings"
 
 	"golang.org/x/tools/go/packages"
@@ -55,6 +56,9 @@ func (m *mrCtx) pure(e ast.Expr) (bool, string) {
 			if pureFuncs[full] {
 				return true
 			}
+			if effectFree(m.c, f, 0) {
+				return true // a function of the module that only writes memory it created itself
+			}
 			ok, why = false, "call of "+full+" (not known to be effect-free)"
 			return true
 		}
@@ -62,6 +66,108 @@ func (m *mrCtx) pure(e ast.Expr) (bool, string) {
 		return true
 	})
 	return ok, why
+}
+
+// effectFree: the function (of this module) writes only memory it created itself - its own variables, slices
+// and maps it made - and calls only functions of the same kind (or sort.* on a slice it made).
+func effectFree(c *Ctx, f *types.Func, depth int) bool {
+	if depth > 3 || f.Pkg() == nil || !strings.HasPrefix(f.Pkg().Path(), modPath) {
+		return false
+	}
+	key := "effectfree:" + f.FullName()
+	if v, ok := c.memo[key].(bool); ok {
+		return v
+	}
+	c.memo[key] = false // recursion: assume not
+	fn := c.Prog.FuncValue(f)
+	if fn == nil || len(fn.Blocks) == 0 {
+		return false
+	}
+	inProgress := map[ssa.Value]bool{}
+	var local func(v ssa.Value, d int) bool
+	local = func(v ssa.Value, d int) bool {
+		if d > 12 {
+			return false
+		}
+		if inProgress[v] {
+			return true // a loop-carried value: decided by its other operands
+		}
+		inProgress[v] = true
+		defer delete(inProgress, v)
+		switch x := v.(type) {
+		case *ssa.Alloc, *ssa.MakeSlice, *ssa.MakeMap:
+			return true
+		case *ssa.IndexAddr:
+			return local(x.X, d+1)
+		case *ssa.FieldAddr:
+			return local(x.X, d+1)
+		case *ssa.Slice:
+			return local(x.X, d+1)
+		case *ssa.Phi:
+			for _, e := range x.Edges {
+				if k, isK := e.(*ssa.Const); isK && k.Value == nil {
+					continue
+				}
+				if !local(e, d+1) {
+					return false
+				}
+			}
+			return true
+		case *ssa.Call:
+			if b, ok := x.Call.Value.(*ssa.Builtin); ok && b.Name() == "append" {
+				return local(x.Call.Args[0], d+1) || isNilConst(x.Call.Args[0])
+			}
+		case *ssa.UnOp:
+			if x.Op == token.MUL {
+				return local(x.X, d+1) // a load from a local cell holding a local slice
+			}
+		}
+		return false
+	}
+	good := true
+	allInstrs(fn, func(in ssa.Instruction) {
+		switch x := in.(type) {
+		case *ssa.Store:
+			if !local(x.Addr, 0) {
+				good = false
+			}
+		case *ssa.MapUpdate:
+			if !local(x.Map, 0) {
+				good = false
+			}
+		case *ssa.Send, *ssa.Go, *ssa.Defer, *ssa.Panic:
+			good = false
+		case *ssa.Call:
+			if _, isB := x.Call.Value.(*ssa.Builtin); isB {
+				if b := x.Call.Value.(*ssa.Builtin); b.Name() == "delete" || b.Name() == "copy" {
+					if !local(x.Call.Args[0], 0) {
+						good = false
+					}
+				}
+				return
+			}
+			fo := calleeObj(x)
+			if fo == nil {
+				good = false
+				return
+			}
+			switch fo.FullName() {
+			case "sort.Strings", "sort.Ints", "sort.Float64s", "slices.Sort":
+				if !local(x.Call.Args[0], 0) {
+					good = false
+				}
+				return
+			}
+			if pureFuncs[fo.FullName()] {
+				return
+			}
+			if !effectFree(c, fo, depth+1) {
+				good = false
+			}
+		}
+	})
+	c.memo[key] = good
+	return good
 }
 
 // effect-free functions that map-range bodies of the parse pipeline may call
@@ -195,6 +301,32 @@ func (m *mrCtx) stmt(s ast.Stmt, declared map[types.Object]bool) string {
 		}
 		if s.Else != nil {
 			return m.stmt(s.Else, declared)
+		}
+		return ""
+	case *ast.SwitchStmt:
+		// a switch is an if chain: pure tag and labels, every clause body order-insensitive
+		if s.Init != nil {
+			if r := m.stmt(s.Init, declared); r != "" {
+				return r
+			}
+		}
+		if s.Tag != nil {
+			if ok, why := m.pure(s.Tag); !ok {
+				return why
+			}
+		}
+		for _, cs := range s.Body.List {
+			cc := cs.(*ast.CaseClause)
+			for _, e := range cc.List {
+				if ok, why := m.pure(e); !ok {
+					return why
+				}
+			}
+			for _, b := range cc.Body {
+				if r := m.stmt(b, declared); r != "" {
+					return r
+				}
+			}
 		}
 		return ""
 	case *ast.ForStmt:
